@@ -73,7 +73,30 @@ def timeout_scenarios(rng, n):
             if which in ('init', 'exit'):
                 ops = [op]      # worker_init runs once per instance and worker_exit is deferred under keep_alive: simple shape
                 pool.pop('keep_alive')
+        if len(ops) == 3 and rng.random() < .5:
+            # another pool of the same process comes and goes while this pool's workers are alive and idle: its end must not stop
+            # this pool's watch threads
+            nb = rng.choice([1, 2, 3])
+            ops = [{'op': 'other_pool', 'do': 'open', 'n_jobs': nb, 'n': rng.randint(4, 10), 'kind': 'imap_unordered', 'lifespan': None}, ops[0],
+                   {'op': 'other_pool', 'do': 'finish'}, ops[1], ops[2]]
         scs.append({'seed': rng.randint(0, 10 ** 6), 'pool': pool, 'ops': ops, 'same_func': True, 'expect': exp, 't': t, 'block': block})
+    for _ in range(max(4, n // 12)):
+        # kept-alive workers are retired because a pool setting changed: their deferred worker_exit runs at the start of the NEXT call,
+        # under the limits of the call they belong to — not under those of the call that is about to start
+        nj = rng.choice([1, 2])
+        what = rng.choice(['pass_worker_id', 'shared_objects', 'use_worker_state'])
+        pool = {'n_jobs': nj, 'start_method': 'fork', 'keep_alive': True}
+        if rng.random() < .5:
+            t = rng.choice([0.2, 0.3, 0.5])
+            ops = [{'op': 'map', 'n': rng.randint(2, 5), 'chunk_size': 1, 'exit': True, 'worker_exit_timeout': t, 'exit_dur': 8.0},
+                   {'op': 'set', 'what': what, 'value': True},
+                   {'op': 'map', 'n': rng.randint(2, 5), 'chunk_size': 1, 'exit': True, 'exit_dur': 0.0}]
+            scs.append({'seed': rng.randint(0, 10 ** 6), 'pool': pool, 'ops': ops, 'same_func': False, 'expect': 'exit', 't': t, 'block': 8.0, 'no_latency': True, 'relax_shape': True})
+        else:
+            ops = [{'op': 'map', 'n': rng.randint(2, 5), 'chunk_size': 1, 'exit': True, 'worker_exit_timeout': 60.0, 'exit_dur': 1.0},
+                   {'op': 'set', 'what': what, 'value': True},
+                   {'op': 'map', 'n': rng.randint(2, 5), 'chunk_size': 1, 'exit': True, 'worker_exit_timeout': 0.2, 'exit_dur': 0.0}]
+            scs.append({'seed': rng.randint(0, 10 ** 6), 'pool': pool, 'ops': ops, 'same_func': False, 'expect': None, 't': 0.2, 'block': 1.0, 'relax_shape': True})
     return scs
 
 
